@@ -753,9 +753,9 @@ func (v *jsv) coq() string {
 		return fmt.Sprintf("(ToJ %d %s)", v.k, v.inner.coq())
 	case "date":
 		if math.IsNaN(v.f) {
-			return "(ToJ 0 Null)"
+			return "(ToJ 4 Null)"
 		}
-		return "(ToJ 0 (Str " + Cstr(time.UnixMilli(int64(v.f)).UTC().Format("2006-01-02T15:04:05.000Z")) + "))"
+		return "(ToJ 4 (Str " + Cstr(time.UnixMilli(int64(v.f)).UTC().Format("2006-01-02T15:04:05.000Z")) + "))"
 	case "cyc":
 		return "(Cyc " + Cbool(v.isArr) + ")"
 	case "ref":
@@ -917,10 +917,7 @@ func (g *gen) jsValue(depth int, ancestors []*jsv, o sopt) *jsv {
 	switch k {
 	case 0:
 		if !o.jsonish && r.Intn(3) == 0 {
-			ms := float64(r.Int63n(4e12))
-			if r.Intn(6) == 0 {
-				ms = math.NaN()
-			}
+			ms := g.dateMs()
 			return g.done(&jsv{kind: "date", f: ms})
 		}
 		return &jsv{kind: "null"}
@@ -1010,7 +1007,19 @@ var replacers = []string{
 	`(function(){var SH=[1,[2]];return function(k,v){return k==="s"?SH:v}})()`, // the same array returned for every key "s"
 	`function(k,v){return typeof v==="number"?new Number(v):(typeof v==="boolean"?new Boolean(v):v)}`,
 	`function(k,v){return k==="c"?this:v}`, // a cycle made by the replacer
+	`function(k,v){return v===undefined?"U":v}`,
+	`function(k,v){return typeof v==="function"?"F":v}`,
+	`function(k,v){return (v===null||typeof v==="string")?undefined:v}`,
+	`function(k,v){return (v===undefined||v===null||typeof v==="function"||typeof v==="boolean")?k+":"+typeof v+":"+(Array.isArray(this)?"A":"O"):v}`, // the call, written into the text
 }
+
+// replacers that see or make undefined: used over arrays with holes and objects with undefined members
+var holeReplacers = []int{10, 13, 10, 13, 11, 12, 6, 2, 0, 8}
+
+// every boundary of the numeric space argument
+var spaceNumbers = []float64{0, 1, 2, 3, 4, 5, 6, 7, 8, 9, 10, 11, 12, 20, 100, -1, -10, -0.5, 0.5, 0.99, 1.5, 3.9, 9.99, 10.5, 10.9999, 1e-9, 5e-324,
+	2147483647, 2147483648, 2147483649, 4294967295, 4294967296, 4294967297, 4294967299, 4294967306, -2147483648, -2147483649, -4294967295, 9007199254740992,
+	9223372036854775807, 9223372036854775808, 18446744073709551616, 1e21, 1e30, 1e300, math.MaxFloat64, -math.MaxFloat64, math.Inf(1), math.Inf(-1)}
 
 func (g *gen) replacer() (string, string) { // JS, Coq
 	r := g.r
@@ -1075,7 +1084,7 @@ func (g *gen) space() (string, string) {
 	case 0, 1, 2:
 		return "undefined", "SNone"
 	case 3, 4:
-		f := Pick(r, []float64{0, 1, 2, 4, 9, 10, 11, 20, -1, 3.9, 0.5, 10.5, 1e30, math.Inf(1), math.Inf(-1), math.NaN(), -0.5, 9.99, 1e-9, 4294967297, 9223372036854775808, float64(r.Intn(14))})
+		f := Pick(r, append([]float64{math.NaN(), math.Copysign(0, -1), float64(r.Intn(14)), float64(r.Intn(14)) + r.Float64(), math.Ldexp(1, r.Intn(70)) + float64(r.Intn(12))}, spaceNumbers...))
 		if r.Intn(4) == 0 {
 			return "new Number(" + JSNum(f) + ")", "(SWNum " + Cdouble(f) + ")"
 		}
@@ -1127,6 +1136,215 @@ func (g *gen) caseStringify(v *jsv, repJS, repCoq, spJS, spCoq, bucket string) {
 	o := g.run(src)
 	g.env.Add(fmt.Sprintf("CStringify %s %s %s %s", v.coq(), repCoq, spCoq, g.sres(o)),
 		fmt.Sprintf("stringify %s -> %s", src, trunc(showS(o))), bucket, true)
+}
+
+// a time value for a Date: round seconds, tens of milliseconds, any millisecond, invalid
+func (g *gen) dateMs() float64 {
+	r := g.r
+	ms := r.Int63n(4e12)
+	switch r.Intn(6) {
+	case 0:
+		return math.NaN()
+	case 1:
+		ms = ms / 1000 * 1000
+	case 2:
+		ms = ms / 100 * 100
+	case 3:
+		ms = ms / 10 * 10
+	}
+	return float64(ms)
+}
+
+// arrays with holes / undefined / function elements and objects with undefined members
+func (g *gen) holeyValue(depth int) *jsv {
+	r := g.r
+	leaf := func() *jsv {
+		switch r.Intn(9) {
+		case 0, 1, 2:
+			return &jsv{kind: "undef"}
+		case 3:
+			return &jsv{kind: "fun"}
+		case 4:
+			return &jsv{kind: "null"}
+		case 5:
+			return &jsv{kind: "bool", b: r.Intn(2) == 0}
+		case 6:
+			return &jsv{kind: "str", s: g.str(false)}
+		case 7:
+			return &jsv{kind: "toj", k: 2, inner: &jsv{kind: "null"}}
+		default:
+			return &jsv{kind: "num", f: float64(r.Intn(100))}
+		}
+	}
+	if depth <= 0 {
+		return leaf()
+	}
+	if r.Intn(3) > 0 {
+		v := &jsv{kind: "arr"}
+		for i := r.Intn(6); i > 0; i-- {
+			if r.Intn(4) == 0 {
+				v.items = append(v.items, g.holeyValue(depth-1))
+			} else {
+				v.items = append(v.items, leaf())
+			}
+		}
+		return v
+	}
+	v := &jsv{kind: "obj"}
+	for i, k := range []string{"a", "u", "f", "z", "c"} {
+		if r.Intn(2) == 0 {
+			continue
+		}
+		v.keys = append(v.keys, ascii(k))
+		if i == 3 {
+			v.items = append(v.items, g.holeyValue(depth-1))
+		} else {
+			v.items = append(v.items, leaf())
+		}
+	}
+	return v
+}
+
+// Go-side marshalling of a value must give the text JSON.stringify gives for it in the script.
+// setup/teardown run before/after (prototype overrides must be in force during both).
+func (g *gen) caseAgree(setup, expr, teardown string) {
+	if setup != "" {
+		g.run(setup)
+	}
+	o := g.run("AGX=" + expr + ";AGS=JSON.stringify(AGX);typeof AGS")
+	agree := true
+	show := ""
+	if ErrClass(o) != 0 {
+		agree, show = false, fmt.Sprintf("script failed: %v%v", o.Err, o.Panic)
+	} else {
+		x, _ := g.vm.Get("AGX")
+		sv, _ := g.vm.Get("AGS")
+		func() {
+			defer func() {
+				if r := recover(); r != nil {
+					agree, show = false, fmt.Sprintf("Go panic %v", r)
+				}
+			}()
+			if g.mark() {
+				panic("host process died on this input")
+			}
+			b1, e1 := json.Marshal(x)
+			var b2 []byte
+			var e2 error
+			if x.IsObject() {
+				b2, e2 = x.Object().MarshalJSON()
+			} else {
+				b2, e2 = b1, e1
+			}
+			show = fmt.Sprintf("JSON.stringify=%s json.Marshal=%q err=%v Object.MarshalJSON=%q err=%v", showS(Outcome{Val: sv}), b1, e1, b2, e2)
+			if sv.IsString() { // otherwise undefined (functions): only "no panic" is required
+				want := sv.String()
+				agree = e1 == nil && e2 == nil && string(b1) == want && string(b2) == want
+			}
+		}()
+	}
+	if teardown != "" {
+		g.run(teardown)
+	}
+	g.env.Add(fmt.Sprintf("CAgree 1 %s", Cbool(agree)), fmt.Sprintf("agree setup{%s} value %s teardown{%s}: %s", setup, expr, teardown, trunc(show)), "marshal-classes", true)
+}
+
+// json.Marshal of the exported (Go) form of a parsed JSON text against JSON.stringify of it
+func (g *gen) caseAgreeExport(t []uint16) {
+	Must(g.vm.Set("T", string(utf16.Decode(t))))
+	o := g.run("AGX=JSON.parse(T);AGS=JSON.stringify(AGX);typeof AGS")
+	agree := true
+	show := ""
+	if ErrClass(o) != 0 {
+		agree, show = false, "script failed"
+	} else {
+		x, _ := g.vm.Get("AGX")
+		sv, _ := g.vm.Get("AGS")
+		func() {
+			defer func() {
+				if r := recover(); r != nil {
+					agree, show = false, fmt.Sprintf("Go panic %v", r)
+				}
+			}()
+			ex, err := x.Export()
+			bs, err2 := json.Marshal(ex)
+			show = fmt.Sprintf("JSON.stringify=%s json.Marshal(Export)=%q err=%v %v", showS(Outcome{Val: sv}), bs, err, err2)
+			agree = err == nil && err2 == nil && sv.IsString() && string(bs) == sv.String()
+		}()
+	}
+	g.env.Add(fmt.Sprintf("CAgree 2 %s", Cbool(agree)), fmt.Sprintf("agree-export <%s>: %s", showUnits(t), trunc(show)), "marshal-export", true)
+}
+
+// every object class a script can build, marshalled from Go
+func (g *gen) sweepClasses() {
+	r := g.r
+	ms := func() string { return JSNum(g.dateMs()) }
+	plain := []string{
+		"new Date(0)", "new Date(500)", "new Date(1070)", "new Date(1234567890120)", "new Date(1234567890123)", "new Date(-1)", "new Date(-62198755200000)",
+		"new Date(NaN)", "new Date(0.7)", "new Date(999.9)", "new Date(" + ms() + ")", "new Date(" + ms() + ")", "new Date(" + ms() + ")",
+		"(function(){var d=new Date(0);d.toJSON=function(){return \"own\"};return d})()",
+		"(function(){var d=new Date(0);d.toJSON=function(k){return {k:k,t:this.getTime()}};return d})()",
+		"(function(){var d=new Date(5000);d.toISOString=function(){return \"iso!\"};return d})()",
+		"(function(){var d=new Date(NaN);d.toISOString=function(){return \"iso!\"};return d})()",
+		"(function(){var d=new Date(0);d.toJSON=undefined;return d})()",
+		"(function(){var d=new Date(0);d.x=1;return d})()",
+		"[new Date(0),new Date(NaN),new Date(" + ms() + ")]", "({d:new Date(86400000),e:[new Date(1500)]})",
+		"new Number(1.5)", "new Number(NaN)", "new Number(-0)", "new String(\"a<b\")", "new String(\"\")", "new Boolean(false)", "Object(\"x\")", "Object(7)",
+		"/a+/g", "new RegExp(\"x\",\"i\")", "new Error(\"boom\")", "new TypeError(\"t\")", "(function(){try{null.x}catch(e){return e}})()",
+		"function(){}", "Math.max", "Object", "[function(){},1]", "({f:function(){},g:1})",
+		"[1,,3]", "new Array(3)", "[,]", "[undefined,null]", "(function(){var a=[1,2,3];delete a[1];return a})()", "(function(){var a=[];a[4]=1;return a})()",
+		"(function(){return arguments})(1,\"a\",null)", "(function(){return arguments})()", "(function(a){a=5;return arguments})(1,2)",
+		"Object.create({a:1})", "Object.create(null)", "Math", "JSON", "({})", "[]", "[[[]]]", "({a:{b:{c:[1,{d:null}]}}})",
+		"(function(){var o={b:1};Object.defineProperty(o,\"h\",{value:2,enumerable:false});return o})()",
+		"({toJSON:function(){return 5}})", "({toJSON:function(){return new Date(0)}})", "[{toJSON:function(k){return k}}]",
+		"true", "null", "undefined", "\"s<>\"", "12", "1e21", "0.5", "NaN", "Infinity",
+		"({n:NaN,i:-Infinity,u:undefined,z:-0})", "new Date(" + ms() + ")",
+	}
+	for _, e := range plain {
+		g.caseAgree("", e, "")
+	}
+	over := [][3]string{
+		{"AGO=Date.prototype.toJSON;Date.prototype.toJSON=function(k){return \"proto:\"+this.getTime()}", "new Date(" + JSNum(float64(r.Intn(100000))) + ")", "Date.prototype.toJSON=AGO"},
+		{"AGO=Date.prototype.toISOString;Date.prototype.toISOString=function(){return \"piso\"}", "new Date(0)", "Date.prototype.toISOString=AGO"},
+		{"AGO=Date.prototype.toISOString;Date.prototype.toISOString=function(){return \"piso\"}", "[new Date(NaN),new Date(1)]", "Date.prototype.toISOString=AGO"},
+		{"AGO=Date.prototype.toJSON;delete Date.prototype.toJSON", "new Date(0)", "Date.prototype.toJSON=AGO"},
+		{"Number.prototype.toJSON=function(){return \"num\"}", "new Number(3)", "delete Number.prototype.toJSON"},
+		{"Number.prototype.toJSON=function(){return \"num\"}", "({a:3,b:new Number(4)})", "delete Number.prototype.toJSON"},
+		{"String.prototype.toJSON=function(){return 1}", "new String(\"s\")", "delete String.prototype.toJSON"},
+		{"RegExp.prototype.toJSON=function(){return this.source}", "/ab/", "delete RegExp.prototype.toJSON"},
+		{"Object.prototype.toJSON=function(){return \"obj\"}", "({a:1})", "delete Object.prototype.toJSON"},
+		{"Object.prototype.toJSON=function(){return \"obj\"}", "[new Date(0),/x/]", "delete Object.prototype.toJSON"},
+	}
+	for _, c := range over {
+		g.caseAgree(c[0], c[1], c[2])
+	}
+}
+
+// numeric and string space arguments at every boundary, plain and as wrapper objects
+func (g *gen) sweepSpace() {
+	val := func() *jsv {
+		return obj("a", arr(num(1), obj("b", num(2)), arr()), "c", str("x"))
+	}
+	for i, f := range append([]float64{math.NaN(), math.Copysign(0, -1)}, spaceNumbers...) {
+		if i%3 == 2 {
+			g.caseStringify(val(), "undefined", "RNone", "new Number("+JSNum(f)+")", "(SWNum "+Cdouble(f)+")", "space-sweep")
+		} else {
+			g.caseStringify(val(), "undefined", "RNone", JSNum(f), "(SNum "+Cdouble(f)+")", "space-sweep")
+		}
+	}
+	for n := 0; n <= 13; n++ {
+		for _, unit := range []string{" ", "ab", "é", "\t"} {
+			u := ascii(strings.Repeat(unit, n))
+			if len(unit) == 2 && unit != "é" {
+				u = ascii(strings.Repeat(unit, n)[:n])
+			}
+			if (n+len(unit))%4 == 0 {
+				g.caseStringify(val(), "undefined", "RNone", "new String("+jsStrExpr(u)+")", "(SWStr "+Cunits(u)+")", "space-sweep")
+			} else {
+				g.caseStringify(val(), "undefined", "RNone", jsStrExpr(u), "(SStr "+Cunits(u)+")", "space-sweep")
+			}
+		}
+	}
 }
 
 func (g *gen) caseMarshal(v *jsv) {
@@ -1208,6 +1426,8 @@ func runC11(env *Env) {
 	g.caseStringify(arr(num(1)), "undefined", "RNone", `"ééééééé"`, "(SStr "+Cstr("ééééééé")+")", "pinned")
 	g.caseRevDel(4)
 	g.caseStringify(num(1152921504606846976), "undefined", "RNone", "undefined", "SNone", "pinned")
+	g.sweepSpace()
+	g.sweepClasses()
 
 	for env.Count() < env.N {
 		switch k := r.Intn(100); {
@@ -1251,7 +1471,20 @@ func runC11(env *Env) {
 			g.caseParseArg(a[0], second, ascii(a[1]))
 		case k < 51:
 			g.caseOrder(9 + r.Intn(12))
-		case k < 62: // DAG-shaped values: objects of every kind used two or three times at different depths
+		case k < 54: // holes, undefined and functions under replacers that see or make undefined
+			v := g.holeyValue(1 + r.Intn(3))
+			id := Pick(r, holeReplacers)
+			spJS, spCoq := "undefined", "SNone"
+			if r.Intn(4) == 0 {
+				spJS, spCoq = g.space()
+			}
+			g.caseStringify(v, replacers[id], fmt.Sprintf("(RFun %d)", id), spJS, spCoq, "stringify-holes")
+		case k < 55:
+			t := g.jsonText(1+r.Intn(3), topt{intOnly: true})
+			if !strings.Contains(string(utf16.Decode(t)), "-0") {
+				g.caseAgreeExport(t)
+			}
+		case k < 64: // DAG-shaped values: objects of every kind used two or three times at different depths
 			o := sopt{cyc: 0.25, share: 0.3}
 			var v *jsv
 			for try := 0; ; try++ {
@@ -1284,6 +1517,9 @@ func runC11(env *Env) {
 			for {
 				g.completed = nil
 				v = g.jsValue(r.Intn(4), nil, sopt{cyc: 0.3, jsonish: r.Intn(2) == 0})
+				if r.Intn(5) == 0 {
+					v = &jsv{kind: "date", f: g.dateMs()}
+				}
 				if v.kind == "fun" || v.kind == "toj" || v.kind == "wnum" || v.kind == "wstr" || v.kind == "wbool" {
 					continue
 				}
